@@ -543,6 +543,12 @@ pub fn add_venv(rng: &mut Rng, spec: &mut WsSpec, names: &[String]) {
             _ => "myplug.pth",
         };
         spec.extra.push((format!("{}/{}", sp, pth), "${ROOT}/plugsrc\n".to_string()));
+        // an untidy venv: a stale path file of an earlier install of the same distribution, pointing to a directory
+        // that no longer holds the package (the documented lookup order prefers the `__editable__.` file)
+        if pth.starts_with("__editable__") && rng.chance(300) {
+            spec.extra.push((format!("{}/myplug.pth", sp), "${ROOT}/old_checkout\n".to_string()));
+            spec.extra.push(("old_checkout/README.txt".to_string(), "moved\n".to_string()));
+        }
     }
 }
 
